@@ -527,10 +527,21 @@ func genLogq(r *rand.Rand, mode string) logqIn {
 		n = r.Intn(60)
 	}
 	in.Recs = genRecs(r, n, true)
-	if r.Intn(3) == 0 {
+	// 0-3 selector matchers; several on one label with the same operator are a conjunction, not a repetition
+	nm := []int{0, 0, 0, 0, 1, 1, 1, 2, 2, 3}[r.Intn(10)]
+	for k := 0; k < nm; k++ {
 		m := matcherIn{Label: B("app"), Op: allOps[r.Intn(4)]}
+		if k > 0 && r.Intn(2) == 0 {
+			m.Op = in.Sel[k-1].Op
+		}
+		if r.Intn(5) == 0 {
+			m.Label = B("n")
+		}
 		if m.Op == "eq" || m.Op == "neq" {
 			m.Val = B(pick(r, []string{"a", "b", "web", ""}))
+			if S(m.Label) == "n" {
+				m.Val = B(pick(r, []string{"5", "10", ""}))
+			}
 			m.Re, _ = json.Marshal(&ReAST{T: "eps"})
 		} else {
 			re := genRe(r, 2, "abwe")
